@@ -68,6 +68,9 @@ class OutgoingRIB(Cache):
         self._refresh_families = set()
         self._refresh_routes = []
 
+        # announces replaced by another announce of the same route before being sent
+        self._superseded: list[Route] = []
+
         # Flush callbacks for sync mode - fire when updates() exhausts
         self._flush_callbacks: list[asyncio.Event] = []
 
@@ -88,6 +91,7 @@ class OutgoingRIB(Cache):
         self._new_attr_af_nlri = {}
         self._new_attribute = {}
         self._pending_withdraws = {}
+        self._superseded = []
         self.reset()
 
     def pending(self) -> bool:
@@ -267,8 +271,8 @@ class OutgoingRIB(Cache):
                 None,
             )
             # the route may also still be queued with the attributes of an earlier announce
-            for per_family in attr_af_nlri.values():
-                per_family.get(route_family, {}).pop(prev_route_index, None)
+            if self._superseded:
+                self._superseded = [r for r in self._superseded if r.index() != prev_route_index]
             # Also remove from _new_nlri since we're withdrawing it
             new_nlri.pop(route_index, None)
 
@@ -345,12 +349,14 @@ class OutgoingRIB(Cache):
         # This allows withdraw+announce sequences to both be sent
         # See plan/plan-announce-cancels-withdraw-optimization.md for future optimization
 
-        # the same route may already be queued under other attributes: both get sent, so make
-        # sure this one is sent after the one it replaces (groups are sent in insertion order)
+        # the same route may already be queued under other attributes: both get sent, the one
+        # which is replaced first. Moving attribute groups around is not enough for that (two
+        # routes can replace each other across the same two groups), so the superseded copy
+        # leaves its group and is sent on its own, ahead of the groups
         prev_route = new_nlri.get(route_index, None)
         if prev_route is not None and prev_route.attributes.index() != route_attr_index:
-            if route_attr_index in attr_af_nlri:
-                attr_af_nlri[route_attr_index] = attr_af_nlri.pop(route_attr_index)
+            attr_af_nlri.get(prev_route.attributes.index(), {}).get(route_family, {}).pop(route_index, None)
+            self._superseded.append(prev_route)
 
         # add the route to the list to be announced
         attr_af_nlri.setdefault(route_attr_index, {}).setdefault(route_family, RIBdict({}))[route_index] = route
@@ -376,6 +382,9 @@ class OutgoingRIB(Cache):
         # Snapshot and clear pending withdraws
         pending_withdraws = self._pending_withdraws
         self._pending_withdraws = {}
+
+        superseded = self._superseded
+        self._superseded = []
 
         # Snapshot and clear refresh state to prevent race conditions
         # (resend() can be called during iteration and would modify these)
@@ -406,6 +415,10 @@ class OutgoingRIB(Cache):
                 # Use new 3-arg signature: (announces, withdraws, attributes)
                 # Withdraws include attributes for proper BGP encoding (e.g., FlowSpec rate-limit)
                 yield UpdateCollection([], [nlri], attrs)
+
+        # announces which were replaced before being sent go first, oldest first
+        for route in superseded:
+            yield UpdateCollection([RoutedNLRI(route.nlri, route.nexthop)], [], route.attributes)
 
         prefix_counts: dict[FamilyTuple, dict[bytes, int]] = {}
 
